@@ -8,7 +8,11 @@ from harness.framework import Suite
 PID = "C13"
 TRANSLATE = True
 LEAN_MODS = ["SwcVerif.Props.C13"]
-THEOREMS = []  # filled below when the proof module is present
+THEOREMS = [
+    "C13.sphere_volume", "C13.cap_volume", "C13.frustum_volume", "C13.frustum_symm",
+    "C13.lens_disjoint", "C13.lens_nested", "C13.lens_proper", "C13.lens_volume", "C13.lens_symm",
+    "C13.concentric_wide", "C13.concentric_narrow", "C13.concentric_volume", "C13.exitT_on_sphere", "C13.exitT_eq_model", "C13.union_volume",
+]
 TRUSTED = ["translator harness/translate.py (Gen/VolumeFormulas.lean regenerated from utils/volumetric_object.py on every run; Float cross-check)",
            "disc method: volume of a solid of revolution := π∫ρ² (its equality with Lebesgue volume is assumed, not proved)"]
 ASSUMPTIONS = [
@@ -170,7 +174,4 @@ LEVEL_TEXT = ("Kernel-checked over ℝ for all radii, heights and distances: the
 LEVEL_NOTE = ("Trusted: Lean kernel + Mathlib; translator; disc method = Lebesgue volume (assumed); the meridian-plane model of the line–sphere "
               "intersection (tied by correspondence on random orientations); eps bands only approximately; floating point outside the theorems.")
 
-try:  # theorem list lives next to the proofs so that it cannot drift
-    from harness.props._c13_theorems import THEOREMS  # noqa: F401
-except Exception:  # noqa: BLE001
-    pass
+
